@@ -87,6 +87,23 @@ Section Law.
     | _, _ => DBad 8%Z
     end.
 
+  Definition value_eqb (a b : value) : bool :=
+    match a, b with
+    | VSelf, VSelf | VDefault, VDefault => true
+    | VAdapter p, VAdapter q => list_eqb offer_eqb p q
+    | _, _ => false
+    end.
+
+  Definition decode_either (variant : nat) (o : outcome) : verdict :=
+    match variant, o with
+    | S (S _), OStored VDefault None => DNo
+    | S (S _), OStored v None => of_value v
+    | S (S _), OStored _ (Some _) => DBad 7%Z
+    | (0 | 1), OStored v (Some v') => if value_eqb v v' then of_value v else DBad 7%Z
+    | (0 | 1), OTraitError => DNo
+    | _, _ => DBad 8%Z
+    end.
+
   Definition is_some {A} (o : option A) : bool := match o with Some _ => true | None => false end.
   Definition opt_nat_eqb (a b : option nat) : bool :=
     match a, b with Some x, Some y => x =? y | None, None => true | _, _ => false end.
@@ -119,6 +136,7 @@ Section Law.
   Definition law (a : api) (o : outcome) : list Z :=
     match a with
     | TraitInstance 0 => law_mode0 o
+    | TraitEither variant => law_verdict (decode_either variant o)
     | _ => law_verdict (decode a o)
     end.
 End Law.
